@@ -1,0 +1,5 @@
+//go:build !verif
+
+package types
+
+func tyVarHook(int64) {}
